@@ -245,7 +245,8 @@ func runOne(t *testing.T, sc scenario, ch *sched.Chooser) (res sched.Result) {
 			termBefore := false
 			var lastErr string
 			var lastErrSeq int64
-			for _, c := range calls {
+			for _, cid := range sortedIDs(calls) {
+				c := calls[cid]
 				if c.endSeq == 0 || c.endSeq > retSeq {
 					continue
 				}
@@ -332,7 +333,8 @@ func runOne(t *testing.T, sc scenario, ch *sched.Chooser) (res sched.Result) {
 					c   *fcall
 				}
 				var starts []st
-				for _, c := range calls {
+				for _, cid := range sortedIDs(calls) {
+					c := calls[cid]
 					if c.startSeq != 0 {
 						starts = append(starts, st{c.startSeq, c})
 					}
@@ -342,7 +344,8 @@ func runOne(t *testing.T, sc scenario, ch *sched.Chooser) (res sched.Result) {
 				for k, s := range starts {
 					fails := 0
 					fz := map[string]bool{}
-					for _, c := range calls {
+					for _, cid := range sortedIDs(calls) {
+						c := calls[cid]
 						if c.endSeq != 0 && c.endSeq < s.seq && c.outcome != "ok" {
 							fails++
 							fz[c.zone] = true
@@ -371,7 +374,8 @@ func runOne(t *testing.T, sc scenario, ch *sched.Chooser) (res sched.Result) {
 				for _, id := range retIDs {
 					ret[id] = true
 				}
-				for _, c := range calls {
+				for _, cid := range sortedIDs(calls) {
+					c := calls[cid]
 					if c.outcome == "ok" {
 						want := 1
 						if ret[c.id] {
@@ -391,7 +395,8 @@ func runOne(t *testing.T, sc scenario, ch *sched.Chooser) (res sched.Result) {
 						fail("ctx-live", "DoUntilQuorum returned but the context of %s is still live", c.id)
 					}
 				}
-				for id, k := range cleaned {
+				for _, id := range sortedIDs(cleaned) {
+					k := cleaned[id]
 					if c := calls[id]; c == nil || c.outcome != "ok" {
 						fail("cleanup-phantom", "cleanup called %d times for %q which is not a successful result", k, id)
 					}
@@ -399,7 +404,8 @@ func runOne(t *testing.T, sc scenario, ch *sched.Chooser) (res sched.Result) {
 			}
 		}
 		var oc []string
-		for _, c := range calls {
+		for _, cid := range sortedIDs(calls) {
+			c := calls[cid]
 			oc = append(oc, c.id+":"+c.outcome)
 		}
 		sort.Strings(oc)
@@ -409,6 +415,16 @@ func runOne(t *testing.T, sc scenario, ch *sched.Chooser) (res sched.Result) {
 		e.Teardown()
 	})
 	return
+}
+
+// sortedIDs gives a deterministic iteration order (violation messages must replay identically).
+func sortedIDs[V any](m map[string]V) []string {
+	ids := make([]string, 0, len(m))
+	for id := range m {
+		ids = append(ids, id)
+	}
+	sort.Strings(ids)
+	return ids
 }
 
 func scenarios() []scenario {
@@ -481,6 +497,226 @@ func TestC11(t *testing.T) {
 		if x.Execs > 200 {
 			rep.Sample(fmt.Sprintf("%s: %d executions, %d distinct outcomes", sc.String(), x.Execs, x.Outcomes()))
 		}
+	}
+	if err := rep.Write(); err != nil {
+		t.Fatal(err)
+	}
+}
+
+// ---------------- multi-set variant ----------------
+
+type mscen struct {
+	name      string
+	sizes     []int // instances per set
+	maxErrors []int
+	minimize  bool
+}
+
+func (m mscen) String() string {
+	return fmt.Sprintf("multi[%s sizes=%v maxErr=%v min=%v]", m.name, m.sizes, m.maxErrors, m.minimize)
+}
+
+func runMulti(t *testing.T, sc mscen, ch *sched.Chooser) (res sched.Result) {
+	synctest.Test(t, func(t *testing.T) {
+		shimrand.Enumerate = true
+		e := sched.NewExec(ch)
+		e.MaxSteps = 4000
+		ctx, cancel := context.WithCancelCause(context.Background())
+		defer cancel(nil)
+		var sets []ring.ReplicationSet
+		setOf := map[string]int{}
+		for si, n := range sc.sizes {
+			s := ring.ReplicationSet{MaxErrors: sc.maxErrors[si]}
+			for i := 0; i < n; i++ {
+				id := fmt.Sprintf("s%di%d", si, i)
+				setOf[id] = si
+				s.Instances = append(s.Instances, ring.InstanceDesc{Id: id, Addr: id})
+			}
+			sets = append(sets, s)
+		}
+		cfg := ring.DoUntilQuorumConfig{MinimizeRequests: sc.minimize}
+		type call struct {
+			outcome string
+			endSeq  int64
+			ctx     context.Context
+		}
+		calls := map[string]*call{}
+		dup := ""
+		f := func(fctx context.Context, in *ring.InstanceDesc, done context.CancelCauseFunc) (string, error) {
+			sched.SetName("f:" + in.Id)
+			sched.Yield("f-enter")
+			if _, ok := calls[in.Id]; ok {
+				dup = in.Id
+			}
+			c := &call{ctx: fctx}
+			calls[in.Id] = c
+			k := sched.Choose("outcome", 2, false)
+			if k == 0 {
+				c.outcome = "ok"
+				sched.Obs("f-end " + in.Id + " ok")
+				// the caller keeps the stream open: it calls done() later (at tear-down)
+				return in.Id, nil
+			}
+			c.outcome = "err"
+			sched.Obs("f-end " + in.Id + " err")
+			done(errors.New("failed"))
+			return "", fmt.Errorf("failure of %s", in.Id)
+		}
+		cleaned := map[string]int{}
+		cleanup := func(r string) { cleaned[r]++; sched.Obs("cleanup " + r) }
+		var out []string
+		var retErr error
+		returned := false
+		e.Enable()
+		e.Go("caller", func() {
+			out, retErr = ring.DoMultiUntilQuorumWithoutSuccessfulContextCancellation(ctx, sets, cfg, f, cleanup)
+			returned = true
+			sched.Obs(fmt.Sprintf("return %v err=%v", out, retErr))
+		})
+		status := e.Run()
+		log := e.Events()
+		canon := e.CanonLog()
+		for i := 0; i < len(canon); {
+			j := i
+			for j < len(canon) && strings.Contains(canon[j], ": cleanup ") {
+				j++
+			}
+			if j > i+1 {
+				sort.Strings(canon[i:j])
+			}
+			if j == i {
+				j++
+			}
+			i = j
+		}
+		trace := append([]string{}, e.Trace...)
+		parked := e.Parked()
+		e.Disable()
+		synctest.Wait()
+		var viol, key string
+		fail := func(k, format string, a ...any) {
+			if viol == "" {
+				viol, key = fmt.Sprintf(format, a...), k
+			}
+		}
+		if dup != "" {
+			fail("called-twice", "instance %s called more than once", dup)
+		}
+		if status != "done" || !returned {
+			fail("hang", "multi-set call did not finish: status=%s parked=%v log=%v", status, parked, canon)
+		}
+		var retSeq int64
+		for _, evn := range log {
+			if strings.HasPrefix(evn.Text, "return ") {
+				retSeq = evn.Seq
+			}
+			if strings.HasPrefix(evn.Text, "f-end ") {
+				calls[strings.Fields(evn.Text)[1]].endSeq = evn.Seq
+			}
+		}
+		if returned && viol == "" {
+			okBySet := make([]int, len(sets))
+			errBySet := make([]int, len(sets))
+			okBefore := map[string]bool{}
+			for _, id := range sortedIDs(calls) {
+				c := calls[id]
+				if c.endSeq == 0 || c.endSeq > retSeq {
+					continue
+				}
+				if c.outcome == "ok" {
+					okBySet[setOf[id]]++
+					okBefore[id] = true
+				} else {
+					errBySet[setOf[id]]++
+				}
+			}
+			for _, id := range out {
+				if !okBefore[id] {
+					fail("phantom-result", "returned %q which had not succeeded before the return", id)
+				}
+			}
+			if retErr == nil {
+				perSet := make([]int, len(sets))
+				for _, id := range out {
+					perSet[setOf[id]]++
+				}
+				for si := range sets {
+					if need := sc.sizes[si] - sc.maxErrors[si]; perSet[si] < need {
+						fail("early-success", "success returned with %d results of set %d, needs %d (returned %v)", perSet[si], si, need, out)
+					}
+				}
+			} else {
+				anyFailed := false
+				for si := range sets {
+					if errBySet[si] > sc.maxErrors[si] {
+						anyFailed = true
+					}
+				}
+				if !anyFailed {
+					fail("early-error", "error %v returned although no set was beyond its tolerance (errors per set %v)", retErr, errBySet)
+				}
+			}
+			ret := map[string]bool{}
+			for _, id := range out {
+				ret[id] = true
+			}
+			for _, id := range sortedIDs(calls) {
+				c := calls[id]
+				if c.outcome == "ok" {
+					want := 1
+					if ret[id] {
+						want = 0
+					}
+					if cleaned[id] != want {
+						fail("cleanup", "successful result of %s (returned=%v) cleaned up %d times, want %d", id, ret[id], cleaned[id], want)
+					}
+					if !ret[id] && c.ctx.Err() == nil {
+						fail("ctx-leak", "context of the unused successful call to %s not cancelled", id)
+					}
+					if ret[id] && c.ctx.Err() != nil {
+						fail("ctx-cancelled", "context of the returned stream %s was cancelled", id)
+					}
+				}
+			}
+		}
+		var oc []string
+		for _, id := range sortedIDs(calls) {
+			c := calls[id]
+			oc = append(oc, id+":"+c.outcome)
+		}
+		sort.Strings(oc)
+		sort.Strings(out)
+		res = sched.Result{Violation: viol, Key: key, Outcome: fmt.Sprintf("ret=%v err=%v|%v", out, retErr != nil, oc), Trace: append(trace, canon...)}
+		cancel(nil)
+		e.Teardown()
+	})
+	return
+}
+
+func TestC11Multi(t *testing.T) {
+	rep := ev.NewReport("C11", "multi-set")
+	bound := 2
+	if ev.Thorough() {
+		bound = 3
+	}
+	scs := []mscen{
+		{"2x2-strict", []int{2, 2}, []int{0, 0}, false},
+		{"2x2-tolerant", []int{2, 2}, []int{1, 1}, false},
+		{"1+2", []int{1, 2}, []int{0, 1}, false},
+	}
+	if ev.Thorough() {
+		scs = append(scs, mscen{"3 sets", []int{1, 2, 1}, []int{0, 1, 0}, false}, mscen{"2x3", []int{3, 3}, []int{1, 1}, false})
+	}
+	rep.Bound = fmt.Sprintf("%d scenarios of DoMultiUntilQuorumWithoutSuccessfulContextCancellation over 2 (thorough 3) non-zone-aware sets of 1..3 instances with tolerance 0/1 (minimisation off: with it the unnamed worker goroutines draw the release permutation before any harness callback can name them, and their identity is not reproducible); per call outcome ok/error; all schedules with <= %d preemptions (hooks: the result mutex, sync.Once and WaitGroup of the multi-set driver, the trackers' atomics, every callback; the in-flight tracker's mutex stays native)", len(scs), bound)
+	rep.Rule = "success only with a quorum of results from EVERY set, results only from calls that succeeded, error only when some set is beyond tolerance, each instance called at most once, every unreturned success cleaned up exactly once and its context cancelled, contexts of returned streams left open, the call always returns; distinct_nontrivial = distinct (scenario, returned set, outcome vector)"
+	deadline := ev.Deadline(6 * time.Minute)
+	for _, sc := range scs {
+		x := &sched.Explorer{Bound: bound, Report: rep, Deadline: deadline, Scenario: sc.String(), Run: func(c *sched.Chooser) sched.Result { return runMulti(t, sc, c) }}
+		if !x.ExploreOrReplay() {
+			rep.NotExhaustive("deadline or violation cap in " + sc.String())
+			break
+		}
+		rep.Sample(fmt.Sprintf("%s: %d executions, %d distinct outcomes", sc.String(), x.Execs, x.Outcomes()))
 	}
 	if err := rep.Write(); err != nil {
 		t.Fatal(err)
